@@ -97,6 +97,13 @@ class Normalizer:
         if isinstance(e, ast.IfExp):
             return f"({X(e.body)} if {self._lit_str(e.test, node, bound, depth + 1)} else {X(e.orelse)})"
         if isinstance(e, (ast.Tuple, ast.List)):
+            if len(e.elts) == 1 and isinstance(e.elts[0], ast.Starred) and isinstance(e.ctx, ast.Load):
+                # (*xs,) is tuple(xs), [*xs] is list(xs)
+                inner = e.elts[0].value
+                fake = ast.Call(func=ast.Name(id='tuple' if isinstance(e, ast.Tuple) else 'list', ctx=ast.Load()), args=[inner], keywords=[])
+                ast.copy_location(fake, e)
+                ast.copy_location(fake.func, e)
+                return X(fake)
             br = '()' if isinstance(e, ast.Tuple) else '[]'
             return br[0] + ', '.join(X(x) for x in e.elts) + br[1]
         if isinstance(e, ast.Set):
@@ -141,9 +148,35 @@ class Normalizer:
         for g in generators:
             for nm, path in _target_paths(g.target):
                 b[nm] = self.iter_elem(g.iter, path, node, b, depth + 1)
+            conds.extend(self.iter_conds(g.iter, node, b, depth + 1))
             for c in g.ifs:
                 conds.append(self._lit_str(c, node, b, depth + 1))
         return b, conds
+
+    def iter_conds(self, it: t.Optional[ast.AST], node: Node, bound: t.Dict[str, str], depth: int) -> t.List[str]:
+        """Filters that the iterable itself applies: a generator expression with ``if`` clauses (possibly returned by a zero-argument
+        helper, or wrapped in zip / enumerate / list ...) restricts what the outer comprehension sees."""
+        if it is None or depth > MAX_DEPTH:
+            return []
+        hr = self.helper_return(it)
+        if hr is not None:
+            sub, rv, rn = hr
+            return sub.iter_conds(rv, rn, {}, depth + 1)
+        if isinstance(it, ast.GeneratorExp):
+            _b, cs = self.comp_bindings(it.generators, node, bound, depth + 1)
+            return cs
+        if isinstance(it, ast.Call) and isinstance(it.func, ast.Name) and it.func.id in ('zip', 'enumerate', 'list', 'tuple', 'iter', 'reversed', 'sorted') \
+                and it.func.id not in bound and not self.rd.is_local(it.func.id):
+            out: t.List[str] = []
+            for a in it.args:
+                out.extend(self.iter_conds(a, node, bound, depth + 1))
+            return out
+        if isinstance(it, ast.Name) and self.rd.is_local(it.id) and it.id not in bound:
+            defs = self.rd.at(node, it.id)
+            if len(defs) == 1 and defs[0].kind == 'assign' and defs[0].value is not None and not defs[0].path \
+                    and isinstance(defs[0].value, (ast.GeneratorExp, ast.Call)):
+                return self.iter_conds(defs[0].value, defs[0].node, {}, depth + 1)
+        return []
 
     def _lit_str(self, e: ast.expr, node: Node, bound: t.Dict[str, str], depth: int) -> str:
         if isinstance(e, ast.BoolOp):
